@@ -480,9 +480,25 @@ Section Innermost2.
     (sg = Normal /\ exec_seq L funs blk (pre ++ While cnd body line :: post) c = exec_seq L funs blk post c2)
     \/ (sg = Ret /\ exec_seq L funs blk (pre ++ While cnd body line :: post) c = Fin (Ret, c2)).
   Proof. exact (loop_signals_stay_inside Name Atom Op Val World Bnd FId Err L funs blk). Qed.
-  (* a FOR lets neither out provided its initialiser and increment parts raise nothing ... *)
+  (* the INCREMENT part of a FOR is inside the loop too: a BREAK it raises in pass j+1 - the body of that pass having ended normally
+     or with CONTINUE - ends THIS FOR and the block goes on with `post` in the configuration the BREAK was raised in; a CONTINUE it
+     raises only ends the increment, the FOR goes on with its next test *)
+  Theorem C11_for_increment_break_innermost : forall pre init cnd inc body line post j (c c1 c1' cj : gcfg) v c2 sg c3 c4,
+    exec_seq L funs blk pre c = Fin (Normal, c1) -> blk init c1 = Fin (Normal, c1') ->
+    fpasses Name Atom Op Val World Bnd FId Err L funs blk cnd inc body j c1' cj -> (j < l_limit L)%nat ->
+    eval_opt L funs blk (l_vzero L) cnd cj = Fin (v, c2) -> l_truth L v = true -> blk body c2 = Fin (sg, c3) -> (sg = Normal \/ sg = Cont) ->
+    blk inc c3 = Fin (Brk, c4) ->
+    exec_seq L funs blk (pre ++ For init cnd inc body line :: post) c = exec_seq L funs blk post c4.
+  Proof. exact (break_in_increment_innermost Name Atom Op Val World Bnd FId Err L funs blk). Qed.
+  Theorem C11_for_increment_continue_innermost : forall cnd inc body line left (c : gcfg) v c1 sg c2 c3,
+    eval_opt L funs blk (l_vzero L) cnd c = Fin (v, c1) -> l_truth L v = true -> blk body c1 = Fin (sg, c2) -> (sg = Normal \/ sg = Cont) ->
+    blk inc c2 = Fin (Cont, c3) ->
+    for_sem L funs blk (S left) cnd inc body line c = for_sem L funs blk left cnd inc body line c3.
+  Proof. exact (for_continue_in_increment Name Atom Op Val World Bnd FId Err L funs blk). Qed.
+  (* a FOR lets neither out - whatever its body and its increment part raise - provided its initialiser, which runs BEFORE the loop,
+     raises nothing ... *)
   Theorem C11_for_signals : forall init cnd inc body line,
-    (forall c sg c', blk init c = Fin (sg, c') -> sg = Normal) -> (forall c sg c', blk inc c = Fin (sg, c') -> sg = Normal) ->
+    (forall c sg c', blk init c = Fin (sg, c') -> sg = Normal) ->
     forall (c : gcfg) sg c', exec_stmt L funs blk (For init cnd inc body line) c = Fin (sg, c') -> sg = Normal \/ sg = Ret.
   Proof. exact (for_stmt_signals Name Atom Op Val World Bnd FId Err L funs blk). Qed.
 End Innermost2.
@@ -493,9 +509,9 @@ Section Innermost3.
   Variable funs : FId -> option (fundef Name Atom Op Val FId).
   Notation gcfg := (cfg Name World Bnd).
 
-  (* ... which is the case when they consist of leaves, PRINTs, declarations, assignments, X++ and call statements *)
+  (* ... which is the case when it consists of leaves, PRINTs, declarations, assignments, X++ and call statements *)
   Theorem C11_for_plain_signals : forall n init cnd inc body line (c : gcfg) sg c',
-    forallb (plain_stmt Name Atom Op FId) init = true -> forallb (plain_stmt Name Atom Op FId) inc = true ->
+    forallb (plain_stmt Name Atom Op FId) init = true ->
     exec_stmt L funs (sem L funs n) (For init cnd inc body line) c = Fin (sg, c') -> sg = Normal \/ sg = Ret.
   Proof. exact (for_plain_signals Name Atom Op Val World Bnd FId Err L funs). Qed.
 
@@ -555,25 +571,48 @@ Theorem C11_continue_skips_for_exec : forall ft, ft_ok ft = true -> forall n ini
   = exec_s (S n) [SFor init cnd inc pre line] (Ok (emb ft m c)).
 Proof. exact continue_skips_for_exec. Qed.
 
-(* REFUTED for one shape: BREAK / CONTINUE written in the INCREMENT slot of a FOR are not confined to that FOR.  The FOR statement
-   ends with the flag still raised (first theorem: the model on `FOR(INT I=0;I<5;BREAK){ PRINT(I) }`), so the enclosing WHILE is
-   ended too (second: `X++ PRINT(X)` never run, the log is `0`, `99`).  /repo does the same on both sources. *)
-Theorem C11_for_increment_break_refuted :
+(* BREAK raised by the INCREMENT part of pass j+1 of a FOR, on the machine: the FOR ends, no flag stays raised, `post` is executed *)
+Theorem C11_for_increment_break_exec : forall ft, ft_ok ft = true ->
+  forall n pre init cnd inc body line post j m (c c1 c1' cj : cfg (list ch) song vv) v c2 sg c3 c4,
+  wf c -> toks_ok (pre ++ SFor init cnd inc body line :: post) = true ->
+  exec_seq ML (funs_of ft) (sem ML (funs_of ft) n) (prog_of pre) c = Fin (Normal, c1) ->
+  sem ML (funs_of ft) n (prog_of init) c1 = Fin (Normal, c1') ->
+  mfpasses ft n (oexpr_of cnd) (prog_of inc) (prog_of body) j c1' cj -> (j < m_N)%nat ->
+  eval_opt ML (funs_of ft) (sem ML (funs_of ft) n) (Expr.SInt 0) (oexpr_of cnd) cj = Fin (v, c2) -> Expr.to_b v = true ->
+  sem ML (funs_of ft) n (prog_of body) c2 = Fin (sg, c3) -> (sg = Normal \/ sg = Cont) ->
+  sem ML (funs_of ft) n (prog_of inc) c3 = Fin (Brk, c4) ->
+  exec_s (S n) (pre ++ SFor init cnd inc body line :: post) (Ok (emb ft m c)) = exec_s (S n) post (Ok (emb ft m c4)) /\ wf c4.
+Proof. exact break_in_increment_exec. Qed.
+
+(* The witnesses of the former finding C11-break-in-for-increment (exec_for ran the increment after its own handling of break_flag,
+   so a BREAK / CONTINUE written in the INCREMENT slot left the flag raised for the enclosing loop; the sources below logged `0`,
+   `99`), now positive: the FOR statement `FOR(INT I=0;I<5;BREAK){ PRINT(I) }` ends NORMALLY after one pass (first theorem), so the
+   enclosing WHILE goes on - `X++ PRINT(X)` run in each of its three passes, the log is 0 1 0 2 0 3 99 (second); with
+   `I++ CONTINUE` as the increment the FOR runs all its passes and the rest of the outer body is not skipped (third). *)
+Theorem C11_for_increment_break_stays :
   match lex_script src_for_inc_break with
   | Ok ([_; SFor init cnd inc body line], ls) =>
       inc = [SCore (TLineNo 0); SBreak] /\
       exists c', exec_stmt ML (funs_of (sl_funcs ls)) (sem ML (funs_of (sl_funcs ls)) 2)
-                   (For (prog_of init) (oexpr_of cnd) (prog_of inc) (prog_of body) line) (cfg_after_lex ls) = Fin (Brk, c')
+                   (For (prog_of init) (oexpr_of cnd) (prog_of inc) (prog_of body) line) (cfg_after_lex ls) = Fin (Normal, c')
                  /\ logs_str (s_logs (world c')) = zs "[PRINT](0) 0"
   | _ => False
   end.
-Proof. exact for_increment_break_refuted. Qed.
-Theorem C11_for_increment_break_escapes :
+Proof. exact for_increment_break_stays. Qed.
+Theorem C11_for_increment_break_outer_goes_on :
   match compile_script src_for_inc_break_nested with
-  | Ok (_, log) => log = zs "[PRINT](0) 0" ++ [10] ++ zs "[PRINT](0) 99"
+  | Ok (_, log) => log = zs "[PRINT](0) 0" ++ [10] ++ zs "[PRINT](0) 1" ++ [10] ++ zs "[PRINT](0) 0" ++ [10] ++ zs "[PRINT](0) 2" ++ [10]
+                         ++ zs "[PRINT](0) 0" ++ [10] ++ zs "[PRINT](0) 3" ++ [10] ++ zs "[PRINT](0) 99"
   | _ => False
   end.
-Proof. exact for_increment_break_escapes. Qed.
+Proof. exact for_increment_break_outer_goes_on. Qed.
+Theorem C11_for_increment_continue_outer_goes_on :
+  match compile_script src_for_inc_continue_nested with
+  | Ok (_, log) => log = zs "[PRINT](0) 0" ++ [10] ++ zs "[PRINT](0) 1" ++ [10] ++ zs "[PRINT](0) 1" ++ [10]
+                         ++ zs "[PRINT](0) 0" ++ [10] ++ zs "[PRINT](0) 1" ++ [10] ++ zs "[PRINT](0) 2" ++ [10] ++ zs "[PRINT](0) 99"
+  | _ => False
+  end.
+Proof. exact for_increment_continue_outer_goes_on. Qed.
 
 (* ------------------------------------------------------------------------------------------------ *)
 (* 2.3 the iteration limit                                                                            *)
@@ -843,6 +882,10 @@ Definition src_continue_text : list ch := zs "INT X=0 WHILE(X<3){ X++ CONTINUE c
 Definition lexed_continue_text := Eval vm_compute in lex_script src_continue_text.
 Definition src_for_continue_text : list ch := zs "FOR(INT I=0;I<3;I++){ d CONTINUE c PRINT(I) }".
 Definition lexed_for_continue_text := Eval vm_compute in lex_script src_for_continue_text.
+Definition src_for_inc_break_if : list ch := zs "FOR(INT I=0;I<9;I++ IF(I>=2){BREAK}){ c } PRINT(I)".
+Definition lexed_for_inc_break := Eval vm_compute in lex_script src_for_inc_break_if.
+Definition src_for_inc_continue : list ch := zs "FOR(INT I=0;I<3;I++ CONTINUE){ c } PRINT(I)".
+Definition lexed_for_inc_continue := Eval vm_compute in lex_script src_for_inc_continue.
 
 (* the inner WHILE(1) of src_nested: two passes, BREAK (inside an IF) in the third; X++ PRINT(X,Y) follow *)
 Example C11_example_break_innermost_block :
@@ -973,28 +1016,79 @@ Example C11_example_continue_innermost_for :
   end.
 Proof. lexed. do 6 eexists. split; [vmr|]. split; [one_fpass; apply fpasses_O|]. do 4 (split; [vmr|]). vmr. Qed.
 
-(* the initialiser `INT I=0` and the increment `I++` of a lexed FOR raise nothing, from any configuration *)
+(* the initialiser `INT I=0` of a lexed FOR raises nothing, from any configuration *)
 Example C11_example_for_signals :
   match lexed_for_break with
   | Ok ([t0; SFor init cnd inc body line; t2], ls) =>
       let ft := sl_funcs ls in
-      (forall c sg c', sem ML (funs_of ft) 2 (prog_of init) c = Fin (sg, c') -> sg = Normal) /\
-      (forall c sg c', sem ML (funs_of ft) 2 (prog_of inc) c = Fin (sg, c') -> sg = Normal)
+      (forall c sg c', sem ML (funs_of ft) 2 (prog_of init) c = Fin (sg, c') -> sg = Normal)
   | _ => False
   end.
 Proof.
-  lexed. split; intros c sg c' H; (eapply (plain_sem_normal _ _ _ _ _ _ _ _ ML); [|exact H]); vmr.
+  lexed. intros c sg c' H; (eapply (plain_sem_normal _ _ _ _ _ _ _ _ ML); [|exact H]); vmr.
 Qed.
 Example C11_example_for_plain_signals :
   match lexed_for_break with
   | Ok ([t0; SFor init cnd inc body line; t2], ls) =>
       let ft := sl_funcs ls in
-      forallb (plain_stmt (list ch) Token.tok mop nat) (prog_of init) = true /\ forallb (plain_stmt (list ch) Token.tok mop nat) (prog_of inc) = true /\
+      forallb (plain_stmt (list ch) Token.tok mop nat) (prog_of init) = true /\
       exists c', exec_stmt ML (funs_of ft) (sem ML (funs_of ft) 2) (For (prog_of init) (oexpr_of cnd) (prog_of inc) (prog_of body) line) (cfg_after_lex ls)
                  = Fin (Normal, c')
   | _ => False
   end.
-Proof. lexed. do 2 (split; [vmr|]). eexists. vmr. Qed.
+Proof. lexed. split; [vmr|]. eexists. vmr. Qed.
+
+(* FOR(INT I=0;I<9;I++ IF(I>=2){BREAK}){ c } PRINT(I): one full pass; in the second the increment makes I = 2 and raises BREAK
+   (inside an IF); the FOR ends, PRINT(I) behind it is executed and sees I = 2 *)
+Example C11_example_for_increment_break_innermost :
+  match lexed_for_inc_break with
+  | Ok ([t0; SFor init cnd inc body line; t2], ls) =>
+      let ft := sl_funcs ls in let c := cfg_after_lex ls in
+      exists c1 c1' cj v c2 sg c3 c4,
+        exec_seq ML (funs_of ft) (sem ML (funs_of ft) 2) (prog_of [t0]) c = Fin (Normal, c1) /\
+        sem ML (funs_of ft) 2 (prog_of init) c1 = Fin (Normal, c1') /\
+        mfpasses ft 2 (oexpr_of cnd) (prog_of inc) (prog_of body) 1 c1' cj /\ (1 < l_limit ML)%nat /\
+        eval_opt ML (funs_of ft) (sem ML (funs_of ft) 2) (Expr.SInt 0) (oexpr_of cnd) cj = Fin (v, c2) /\ Expr.to_b v = true /\
+        sem ML (funs_of ft) 2 (prog_of body) c2 = Fin (sg, c3) /\ (sg = Normal \/ sg = Cont) /\
+        sem ML (funs_of ft) 2 (prog_of inc) c3 = Fin (Brk, c4) /\ lookup ML (zs "I") (env c4) = Some (VV (Expr.SInt 2))
+  | _ => False
+  end.
+Proof.
+  lexed. do 8 eexists. do 2 (split; [vmr|]). split; [one_fpass; apply fpasses_O|].
+  split; [change (l_limit ML) with m_N; unfold m_N, MAX_LOOP; lia|]. do 3 (split; [vmr|]). split; [left; reflexivity|]. split; vmr.
+Qed.
+Example C11_example_for_increment_break_exec :
+  match lexed_for_inc_break with
+  | Ok ([t0; SFor init cnd inc body line; t2], ls) =>
+      let ft := sl_funcs ls in let c := cfg_after_lex ls in
+      exists c1 c1' cj v c2 sg c3 c4, ft_ok ft = true /\ wf c /\ toks_ok ([t0] ++ SFor init cnd inc body line :: [t2]) = true /\
+        exec_seq ML (funs_of ft) (sem ML (funs_of ft) 2) (prog_of [t0]) c = Fin (Normal, c1) /\
+        sem ML (funs_of ft) 2 (prog_of init) c1 = Fin (Normal, c1') /\
+        mfpasses ft 2 (oexpr_of cnd) (prog_of inc) (prog_of body) 1 c1' cj /\ (1 < m_N)%nat /\
+        eval_opt ML (funs_of ft) (sem ML (funs_of ft) 2) (Expr.SInt 0) (oexpr_of cnd) cj = Fin (v, c2) /\ Expr.to_b v = true /\
+        sem ML (funs_of ft) 2 (prog_of body) c2 = Fin (sg, c3) /\ (sg = Normal \/ sg = Cont) /\
+        sem ML (funs_of ft) 2 (prog_of inc) c3 = Fin (Brk, c4) /\
+        (exists st, exec_s 3 ([t0] ++ SFor init cnd inc body line :: [t2]) (Ok (emb ft false c)) = Ok st /\
+                    exec_s 3 [t2] (Ok (emb ft false c4)) = Ok st /\ logs_str (s_logs (ss_song st)) = zs "[PRINT](0) 2")
+  | _ => False
+  end.
+Proof.
+  lexed. do 8 eexists. do 5 (split; [vmr|]). split; [one_fpass; apply fpasses_O|].
+  split; [unfold m_N, MAX_LOOP; lia|]. do 3 (split; [vmr|]). split; [left; reflexivity|]. split; [vmr|].
+  eexists. split; [vmr|]. split; vmr.
+Qed.
+(* FOR(INT I=0;I<3;I++ CONTINUE){ c }: the increment of the first pass makes I = 1 and raises CONTINUE; the FOR goes on *)
+Example C11_example_for_increment_continue_innermost :
+  match lexed_for_inc_continue with
+  | Ok ([t0; SFor init cnd inc body line; t2], ls) =>
+      let ft := sl_funcs ls in
+      exists c v c1 sg c2 c3, sem ML (funs_of ft) 2 (prog_of init) (cfg_after_lex ls) = Fin (Normal, c) /\
+        eval_opt ML (funs_of ft) (sem ML (funs_of ft) 2) (Expr.SInt 0) (oexpr_of cnd) c = Fin (v, c1) /\ Expr.to_b v = true /\
+        sem ML (funs_of ft) 2 (prog_of body) c1 = Fin (sg, c2) /\ (sg = Normal \/ sg = Cont) /\
+        sem ML (funs_of ft) 2 (prog_of inc) c2 = Fin (Cont, c3) /\ lookup ML (zs "I") (env c3) = Some (VV (Expr.SInt 1))
+  | _ => False
+  end.
+Proof. lexed. do 6 eexists. do 4 (split; [vmr|]). split; [left; reflexivity|]. split; vmr. Qed.
 
 (* WHILE(X<3){ X++ CONTINUE c PRINT(X) }: `c PRINT(X)` is never run - no note, no log line - exactly as for WHILE(X<3){ X++ } *)
 Example C11_example_continue_skips_text :
@@ -1368,8 +1462,12 @@ Print Assumptions C11_break_innermost_exec.
 Print Assumptions C11_break_innermost_for_exec.
 Print Assumptions C11_continue_skips_exec.
 Print Assumptions C11_continue_skips_for_exec.
-Print Assumptions C11_for_increment_break_refuted.
-Print Assumptions C11_for_increment_break_escapes.
+Print Assumptions C11_for_increment_break_innermost.
+Print Assumptions C11_for_increment_continue_innermost.
+Print Assumptions C11_for_increment_break_exec.
+Print Assumptions C11_for_increment_break_stays.
+Print Assumptions C11_for_increment_break_outer_goes_on.
+Print Assumptions C11_for_increment_continue_outer_goes_on.
 Print Assumptions C11_limit_never_ends.
 Print Assumptions C11_limit_never_ends_for.
 Print Assumptions C11_limit_constant.
